@@ -1641,7 +1641,7 @@ pub fn property() -> Property {
         ],
         panic_clause: "C12.g-nopanic",
         livelock_clause: "C12.g-livelock",
-        rule: "one run = one seeded execution: a FASTA file (1-4 records, own line width each, LF or CRLF, with/without final terminator) plus a .fai computed by an independent reference indexer, an IndexedReader over a seekable simulated file, and a history of 1-10 fetch/read/read_iter steps (valid and invalid), with read fragmentation regime, per-operation EINTR/EIO rates and an optional truncation offset all drawn from one choice stream; ix-allpairs instead sweeps every (start, stop) pair of one record. Non-trivial = a fault or non-default knob actually fired. Distinct = distinct schedule signature: hash of scenario, truncation class and the sequence of (call kind, requested-size class, outcome class) of every endpoint call. ix-virtual serves one record of up to 2^35 bases from a formula (file offsets beyond 4 GiB). ix-partitions plays every partition of one tiny file into read() chunks for two adjacent fetches; one sweep counts as one run.",
+        rule: "one run = one seeded execution: a FASTA file (1-4 records, in rarer regimes up to 300; own line width each, LF or CRLF, with/without final terminator) plus a .fai computed by an independent reference indexer, an IndexedReader over a seekable simulated file, and a history of 1-10 fetch/read/read_iter steps (1 run in 50: up to 60, 300 or 4000; valid and invalid), with read fragmentation regime, per-operation EINTR/EIO rates and an optional truncation offset all drawn from one choice stream; ix-allpairs instead sweeps every (start, stop) pair of one record. Non-trivial = a fault or non-default knob actually fired. Distinct = distinct schedule signature: hash of scenario, truncation class and the sequence of (call kind, requested-size class, outcome class) of every endpoint call. ix-virtual serves one record of up to 2^35 bases from a formula (file offsets beyond 4 GiB). ix-partitions plays every partition of one tiny file into read() chunks for two adjacent fetches; one sweep counts as one run.",
         real: &["bio::io::fasta::{Index::new, Index::sequences, IndexedReader::{new, with_index, fetch, fetch_by_rid, fetch_all, fetch_all_by_rid, read, read_iter}, IndexedReaderIterator}", "std::io::BufReader (fill_buf/consume/seek)", "csv reader (for the .fai)"],
         stubs: &["the seekable file (SimSeekRead: short reads, EINTR, EIO on read and seek)", "the .fai stream (SimRead: short reads)", "samtools faidx (harness reference indexer)", "truncation of the FASTA file after indexing"],
         assumptions: &[
